@@ -232,6 +232,98 @@ pub fn run_tree_mode(ctx: &mut Ctx, bytes: &[u8], rename_mode: bool) -> Result<b
             }
         }
     }
+    // a second project in the same session with its own copy of a dependency of the same name:
+    // that copy is as external as the first one
+    if rename_mode && !dep_mods.is_empty() && c.chance(150) {
+        let alt = |ws_path: &str| wd.path.join("other").join(ws_path.trim_start_matches("/ws/"));
+        for (pi, p) in sw.ws.packages.iter().enumerate() {
+            let d = alt(&p.root);
+            let _ = std::fs::create_dir_all(&d);
+            let _ = std::fs::write(d.join("gleam.toml"), toml_for(&sw, pi));
+        }
+        for f in sw.ws.files.iter().filter(|f| f.module.is_some()) {
+            let p = alt(&f.path);
+            let _ = std::fs::create_dir_all(p.parent().unwrap());
+            let _ = std::fs::write(&p, &f.text);
+        }
+        let alt_uri = |fi: usize| uri_of(&alt(&sw.ws.files[fi].path));
+        // the first project is known by now; open the second one, then its copy of the dependency
+        if !opened.iter().any(|f| sw.ws.files[*f].pkg == 0) {
+            let f = app_mods[0];
+            lsp.did_open(&uri(f), &sw.ws.files[f].text);
+        }
+        let f2 = app_mods[c.below(app_mods.len())];
+        lsp.did_open(&alt_uri(f2), &sw.ws.files[f2].text);
+        let df = dep_mods[c.below(dep_mods.len())];
+        lsp.did_open(&alt_uri(df), &sw.ws.files[df].text);
+        ctx.class("second project with a dependency of the same name");
+        for decl in sw.decls.iter().filter(|d| d.file == df && matches!(d.kind, DK::Fn | DK::Const | DK::Param)).take(3) {
+            let Some(pos) = docs[df].pos_of(decl.name_range.0) else { continue };
+            ctx.eval();
+            let pr = lsp.call("textDocument/prepareRename", json!({"textDocument": {"uri": alt_uri(df)}, "position": {"line": pos.line, "character": pos.col}}), Duration::from_secs(20));
+            let Some(pr) = pr else { return Err(fail(lsp, "no answer to prepareRename".into(), "no-answer")) };
+            if pr.get("error").is_none() {
+                return Err(fail(
+                    lsp,
+                    format!("in a second project opened in the same session, prepareRename accepts `{}`, defined in that project's own build/packages copy {}: {}", decl.name, alt(&sw.ws.files[df].path).display(), clip(&pr.to_string(), 200)),
+                    "external-editable",
+                ));
+            }
+        }
+    }
+    // a second assembly of the package graph (the client opens the root's gleam.toml): imports
+    // still resolve, in particular those written inside dependencies
+    if c.chance(140) {
+        let toml = sw.ws.packages[0].toml_file;
+        lsp.did_open(&uri(toml), &sw.ws.files[toml].text);
+        ctx.class("second pass after the package graph was assembled again");
+        let mut again = 0;
+        // occurrences in dependency files first
+        let mut order: Vec<&crate::gen::scoped::Occ> = sw.occs.iter().collect();
+        order.sort_by_key(|o| sw.ws.files[o.file].pkg == 0);
+        for o in order {
+            let Some(d) = o.expected else { continue };
+            if o.tier != OccTier::Core || o.role != Role::Use {
+                continue;
+            }
+            let decl = &sw.decls[d];
+            if decl.file == o.file {
+                continue;
+            }
+            if again >= 15 {
+                break;
+            }
+            again += 1;
+            let Some(pos) = docs[o.file].pos_of((o.range.0 + o.range.1) / 2) else { continue };
+            if !opened.contains(&o.file) {
+                opened.push(o.file);
+                lsp.did_open(&uri(o.file), &sw.ws.files[o.file].text);
+            }
+            ctx.eval();
+            let r = lsp.call("textDocument/definition", json!({"textDocument": {"uri": uri(o.file)}, "position": {"line": pos.line, "character": pos.col}}), Duration::from_secs(20));
+            let Some(r) = r else { return Err(fail(lsp, format!("no answer to definition for `{}` in {}", o.text, sw.ws.files[o.file].path), "no-answer")) };
+            let targets = r["result"].as_array().cloned().unwrap_or_default();
+            let ok = targets.len() == 1 && norm(targets[0]["uri"].as_str().unwrap_or("")) == norm(&uri(decl.file));
+            if !ok {
+                return Err(fail(
+                    lsp,
+                    format!(
+                        "after the root's gleam.toml was opened (package graph assembled again) `{}` at {}:{}..{} ({}) should still resolve to {} `{}` in {}, the server answers {}",
+                        o.text,
+                        sw.ws.files[o.file].path,
+                        o.range.0,
+                        o.range.1,
+                        o.what,
+                        decl.kind.name(),
+                        decl.name,
+                        sw.ws.files[decl.file].path,
+                        clip(&r.to_string(), 300)
+                    ),
+                    "unresolved-after-reassembly",
+                ));
+            }
+        }
+    }
     // transitive (not direct) dependency is not importable
     if let Some((f, s, _e)) = negative {
         if let Some(pos) = docs_pos(&sw.ws.files[f].text, s) {
